@@ -55,6 +55,20 @@ func (e *Engine) encodeFunction(fn *ssa.Function) *FuncResult {
 		}
 		return x
 	}
+	// objects named by "modifies ... at e" (evaluated in the entry state)
+	c.topAtRefs = map[string][]Term{}
+	if fc != nil {
+		for _, m := range fc.Modifies {
+			if m.At == nil {
+				continue
+			}
+			if tv, ok := mk(st).evalAny(m.At); ok {
+				for _, h := range c.modifiesHeaps(m.Pat) {
+					c.topAtRefs[h] = append(c.topAtRefs[h], atRef(tv))
+				}
+			}
+		}
+	}
 	if fc != nil {
 		for _, cl := range fc.clauses("requires") {
 			if strings.HasPrefix(cl.Label, "callback:") {
@@ -104,11 +118,22 @@ func (e *Engine) encodeFunction(fn *ssa.Function) *FuncResult {
 			}
 		}
 	}
+	// canaries: clauses that must NOT be provable (reachability of the interesting paths)
+	if fc != nil {
+		for _, cl := range fc.clauses("canary") {
+			if g, ok := mk(stRet).evalBool(cl.Expr); ok {
+				c.oblige(fmt.Sprintf("%s/canary[%s]", key, cl.Label), "canary", atRet, g, cl.Text)
+			}
+		}
+	}
 	// frame obligations
 	declared := map[string]bool{}
 	if fc != nil {
 		for _, m := range fc.Modifies {
-			for _, h := range c.modifiesHeaps(m) {
+			if m.At != nil {
+				continue
+			}
+			for _, h := range c.modifiesHeaps(m.Pat) {
 				if strings.HasPrefix(h, "CELL:") {
 					name := strings.TrimPrefix(h, "CELL:")
 					for _, fv := range fn.FreeVars {
@@ -140,6 +165,9 @@ func (e *Engine) encodeFunction(fn *ssa.Function) *FuncResult {
 	}
 	// optional obligations (sort determinism) are appended with their own background prefix
 	for _, so := range c.sortTotal {
+		if !c.option("sort-total") {
+			break
+		}
 		o := &Obligation{Name: so.name, Kind: "total-order", Guard: so.guard, Goal: so.goal, NAsserts: so.nAsserts, Func: key, Blk: so.blk, Text: "comparator " + so.cmp + " orders every two distinct positions"}
 		c.obls = append(c.obls, o)
 	}
@@ -182,7 +210,11 @@ func discharge(scratch string, results []*FuncResult, timeoutS int, all bool, fi
 			defer func() { <-sem }()
 			q := j.fr.Enc.queryFor(j.o)
 			gv := j.fr.Enc.modelVars
-			r := runPortfolio(scratch, j.o.Name, q, gv, timeoutS, all)
+			to := timeoutS
+			if j.o.Kind == "canary" && to > 4 {
+				to = 4 // canaries are expected to be refutable; a timeout is as good as sat for them
+			}
+			r := runPortfolio(scratch, j.o.Name, q, gv, to, all && j.o.Kind != "canary")
 			j.o.Result = &r
 		}(j)
 	}
@@ -199,7 +231,7 @@ func discharge(scratch string, results []*FuncResult, timeoutS int, all bool, fi
 			o := &Obligation{Name: r.Func + "/cover", Guard: r.CoverGuard, Goal: False, NAsserts: len(r.Enc.asserts)}
 			q := r.Enc.queryFor(o)
 			// cover: asserts ∧ guard ∧ ¬false must be satisfiable
-			cr := runPortfolio(scratch, o.Name, q, nil, timeoutS, false)
+			cr := runPortfolio(scratch, o.Name, q, nil, 3, false)
 			r.Cover = &cr
 		}(r)
 	}
